@@ -4,6 +4,8 @@ package x25519
 // scheduler over instrumented accesses to package-level variables), plus the free-running -race pass.
 
 import (
+	"io"
+	"runtime"
 	"bytes"
 	"crypto"
 	stded "crypto/ed25519"
@@ -498,6 +500,14 @@ func init() {
 		all, valid, e := ed25519.VerifyBatch(rt.NewRng(1, "c15"), f.batchPub[:4], msgs, f.batchSig[:4], &ed25519.Options{Hash: crypto.SHA512})
 		return dig(all, valid, e)
 	})
+	mk("Batch64BadLast", func() string { return batchCall(64, 63) })
+	mk("Batch64Bad60", func() string { return batchCall(64, 60) })
+	mk("Batch8ThirdCtx", func() string {
+		f := fixtures()
+		pubs, msgs, sigs := parkedEntries(f, 77, "third-ctx")
+		all, valid, e := ed25519.VerifyBatch(rt.NewRng(1, "c15"), pubs, msgs, sigs, &ed25519.Options{Context: "third-ctx"})
+		return dig(all, valid, e)
+	})
 	mk("BatchArgCounts", func() string {
 		f := fixtures()
 		all, valid, e := ed25519.VerifyBatch(rt.NewRng(1, "c15"), f.batchPub[:4], f.batchMsg[:3], f.batchSig[:4], &ed25519.Options{})
@@ -567,6 +577,8 @@ type c15req struct {
 	Stride    map[string]int `json:"stride,omitempty"`
 	Tracking  bool           `json:"tracking,omitempty"`
 	Reps      int            `json:"reps,omitempty"`
+	Parked    int            `json:"parked,omitempty"`     // mode "parked": number of calls in flight
+	Gomaxprocs int           `json:"gomaxprocs,omitempty"` // mode "parked"
 }
 
 type c15acc struct {
@@ -636,6 +648,45 @@ func c15Child(payload []byte) interface{} {
 			}
 			resp.Acc = append(resp.Acc, am)
 		}
+	case "parked":
+		// req.Parked honest batches (8 entries, context "parked-ctx") are IN FLIGHT, each blocked inside its
+		// entropy reader, while req.Ops run to completion; then they are released
+		f := fixtures()
+		if req.Gomaxprocs > 0 {
+			runtime.GOMAXPROCS(req.Gomaxprocs)
+		}
+		type pe struct {
+			pubs       []ed25519.PublicKey
+			msgs, sigs [][]byte
+		}
+		pes := make([]pe, req.Parked)
+		for i := range pes {
+			pes[i].pubs, pes[i].msgs, pes[i].sigs = parkedEntries(f, i, "parked-ctx")
+		}
+		parked := make([]string, req.Parked)
+		entered := make(chan int, req.Parked)
+		release := make(chan struct{})
+		var wg sync.WaitGroup
+		for i := 0; i < req.Parked; i++ {
+			wg.Add(1)
+			go func(i int) {
+				defer wg.Done()
+				rd := &parkReader{entered: entered, release: release, r: rt.NewRng(int64(i)+5, "parked")}
+				all, valid, err := ed25519.VerifyBatch(rd, pes[i].pubs, pes[i].msgs, pes[i].sigs, &ed25519.Options{Context: "parked-ctx"})
+				parked[i] = fmt.Sprint(all, valid, err)
+			}(i)
+		}
+		for i := 0; i < req.Parked; i++ {
+			<-entered
+		}
+		var res []string
+		for _, o := range req.Ops {
+			res = append(res, c15ops[o].run())
+		}
+		close(release)
+		wg.Wait()
+		resp.Results = [][]string{res, parked}
+		resp.Extra = map[string]interface{}{"parked_expected": fmt.Sprint(true, []bool{true, true, true, true, true, true, true, true}, error(nil))}
 	case "race":
 		// free-running goroutines (uninstrumented -race build); the race detector reports on stderr
 		reps := req.Reps
@@ -878,6 +929,42 @@ func jobC15hist(c *rt.Ctx) {
 		}
 	}
 	c.Require("history/long-run")
+	// calls in flight: k honest batches parked inside their entropy readers (k = 1..6, 8) at GOMAXPROCS 1,
+	// 16 and 32 while a forged-last-entry batch, a forged-entry-60 batch, a batch under a third context and
+	// a signature run to completion; every result == solo, every parked batch all-valid afterwards
+	c.Require("history/calls-in-flight")
+	for _, g := range []int{1, 16, 32} {
+		for _, k := range []int{1, 2, 3, 4, 5, 6, 8} {
+			if !c.Take() {
+				continue
+			}
+			ops := []int{opIx("Batch64BadLast"), opIx("Batch64Bad60"), opIx("Batch8ThirdCtx"), opIx("SignCtx"), opIx("Batch64BadLast")}
+			resp, stderr, err := c15call(c15req{Mode: "parked", Ops: ops, Parked: k, Gomaxprocs: g})
+			c.Class("history/calls-in-flight")
+			c.Distinct(fmt.Sprintf("parked %d %d", g, k), true)
+			if err != nil {
+				c.Violation("C15 calls-in-flight child-crash", fmt.Sprintf("%d calls in flight (GOMAXPROCS=%d), then %s: the process failed: %v", k, g, opNames(ops), err), map[string]interface{}{"stderr": tail(stderr)})
+				continue
+			}
+			c.Step(len(ops) + k)
+			for i, o := range ops {
+				want, ok := soloResult(c, o)
+				if !ok {
+					return
+				}
+				if resp.Results[0][i] != want {
+					c.Violation(fmt.Sprintf("C15 calls-in-flight result op=%s", c15ops[o].name), fmt.Sprintf("with %d other VerifyBatch calls in flight (GOMAXPROCS=%d), call %d (%s) returned %s; alone it returns %s", k, g, i, c15ops[o].name, resp.Results[0][i], want),
+						map[string]interface{}{"in_flight": k, "gomaxprocs": g, "call": c15ops[o].name})
+				}
+			}
+			for i, r := range resp.Results[1] {
+				if r != fmt.Sprint(resp.Extra["parked_expected"]) {
+					c.Violation("C15 calls-in-flight parked call", fmt.Sprintf("an honest batch that was in flight while %s ran (with %d other calls in flight, GOMAXPROCS=%d) returned %s", opNames(ops), k-1, g, r), map[string]interface{}{"in_flight": k, "gomaxprocs": g, "parked_call": i})
+					break
+				}
+			}
+		}
+	}
 	sort.SliceStable(seqs, func(i, j int) bool { return len(seqs[i]) < len(seqs[j]) })
 	states := map[string]bool{}
 	for _, seq := range seqs {
@@ -1259,4 +1346,35 @@ func jobC15race(c *rt.Ctx) {
 		}
 	}
 	_ = os.Getenv
+}
+
+// parkedEntries: 8 honest entries under the given context, signed by the toolchain's implementation.
+func parkedEntries(f *c15fix, salt int, ctx string) ([]ed25519.PublicKey, [][]byte, [][]byte) {
+	var pubs []ed25519.PublicKey
+	var msgs, sigs [][]byte
+	for j := 0; j < 8; j++ {
+		m := []byte{byte(salt), byte(j), 0x15}
+		sg, err := f.std.Sign(nil, m, &stded.Options{Context: ctx})
+		if err != nil {
+			panic(err)
+		}
+		pubs, msgs, sigs = append(pubs, f.pub), append(msgs, m), append(sigs, sg)
+	}
+	return pubs, msgs, sigs
+}
+
+type parkReader struct {
+	entered chan int
+	release chan struct{}
+	r       io.Reader
+	parked  bool
+}
+
+func (p *parkReader) Read(b []byte) (int, error) {
+	if !p.parked {
+		p.parked = true
+		p.entered <- 0
+		<-p.release
+	}
+	return p.r.Read(b)
 }
